@@ -173,7 +173,8 @@ impl PatternFormatter {
 
   /// Applies left or right padding to the given content.
   fn apply_padding(&self, buf: &mut String, content: &str, padding: i32) {
-    let width = padding.abs() as usize;
+    // `unsigned_abs`: `abs()` overflows (panics / wraps) for `i32::MIN`.
+    let width = padding.unsigned_abs() as usize;
     if content.len() >= width {
       buf.push_str(content);
       return;
